@@ -21,11 +21,30 @@
 package engine
 
 import (
+	"fmt"
 	"go/token"
 	"reflect"
 
 	"github.com/uber-go/gopatch/internal/data"
 )
+
+// assign sets dst to src. If the patch produced a value that cannot be placed
+// in dst (for example, an arbitrary expression where only an identifier is
+// allowed), it reports an error instead of letting reflect panic.
+func assign(dst, src reflect.Value) error {
+	if !src.IsValid() || !src.Type().AssignableTo(dst.Type()) {
+		got := "nothing"
+		if src.IsValid() {
+			got = src.Type().String()
+			if src.Kind() == reflect.Interface && !src.IsNil() {
+				got = src.Elem().Type().String()
+			}
+		}
+		return fmt.Errorf("cannot use %v where %v is expected", got, dst.Type())
+	}
+	dst.Set(src)
+	return nil
+}
 
 // compileGeneric compiles a Replacer for arbitrary values inside a Go AST.
 func (c *replacerCompiler) compileGeneric(v reflect.Value) (r Replacer) {
@@ -69,7 +88,12 @@ func (r PtrReplacer) Replace(d data.Data, cl Changelog, pos token.Pos) (reflect.
 	}
 
 	v := reflect.New(r.Type).Elem()
-	v.Set(x.Addr())
+	if !x.CanAddr() {
+		return reflect.Value{}, fmt.Errorf("cannot use %v where %v is expected", x.Type(), r.Type)
+	}
+	if err := assign(v, x.Addr()); err != nil {
+		return reflect.Value{}, err
+	}
 	return v, nil
 }
 
@@ -107,7 +131,9 @@ func (r SliceReplacer) Replace(d data.Data, cl Changelog, pos token.Pos) (reflec
 		if err != nil {
 			return reflect.Value{}, err
 		}
-		v.Index(i).Set(item)
+		if err := assign(v.Index(i), item); err != nil {
+			return reflect.Value{}, err
+		}
 	}
 
 	return v, nil
@@ -143,7 +169,9 @@ func (r StructReplacer) Replace(d data.Data, cl Changelog, pos token.Pos) (refle
 		if err != nil {
 			return reflect.Value{}, err
 		}
-		v.Field(i).Set(fv)
+		if err := assign(v.Field(i), fv); err != nil {
+			return reflect.Value{}, err
+		}
 	}
 	return v, nil
 }
@@ -173,7 +201,9 @@ func (r InterfaceReplacer) Replace(d data.Data, cl Changelog, pos token.Pos) (re
 	}
 
 	v := reflect.New(r.Type).Elem()
-	v.Set(x)
+	if err := assign(v, x); err != nil {
+		return reflect.Value{}, err
+	}
 	return v, nil
 }
 
